@@ -252,7 +252,27 @@ class Gen:
         if r is not None:
             return r
         rng = self.rng
-        k = rng.randrange(12 if d > 0 else 6)
+        k = rng.randrange(15 if d > 0 else 6)
+        if k == 12:
+            # the rarely used instructions that carry types / code / a whole script of their own
+            j = rng.randrange(6)
+            if j == 0:
+                return {'prim': 'CREATE_CONTRACT', 'args': [[{'prim': 'parameter', 'args': [self.typ(1)]}, {'prim': 'storage', 'args': [self.typ(1)]},
+                                                             {'prim': 'code', 'args': [self.code(d - 1)]}]]}
+            if j == 1:
+                return {'prim': 'LAMBDA_REC', 'args': [self.typ(1), self.typ(1), self.code(d - 1)]}
+            if j == 2:
+                return {'prim': rng.choice(['EMPTY_MAP', 'EMPTY_BIG_MAP']), 'args': [{'prim': rng.choice(['nat', 'string'])}, self.typ(1)]}
+            if j == 3:
+                return {'prim': rng.choice(['CONTRACT', 'CAST', 'UNPACK', 'EMPTY_SET', 'EMIT']), 'args': [self.typ(1) if rng.random() < 0.8 else {'prim': 'nat'}]}
+            if j == 4:
+                return {'prim': 'VIEW', 'args': [{'string': 'v%d' % rng.randrange(5)}, self.typ(1)]}
+            return {'prim': 'DIP', 'args': [{'int': str(rng.randrange(0, 3))}, self.code(d - 1)]}
+        if k == 13:
+            return {'prim': 'LOOP_LEFT', 'args': [self.code(d - 1)]}
+        if k == 14:
+            return {'prim': 'CREATE_CONTRACT', 'args': [[{'prim': 'parameter', 'args': [self.typ(1)]}, {'prim': 'storage', 'args': [self.typ(1)]},
+                                                         {'prim': 'code', 'args': [self.code(d - 1)]}]]}
         if k < 3:
             i = {'prim': rng.choice(['DROP', 'DUP', 'SWAP', 'UNIT', 'PAIR', 'CAR', 'CDR', 'ADD', 'SOME'])}
             if rng.random() < 0.2 and i['prim'] in ('DUP', 'UNIT', 'PAIR', 'CAR', 'CDR', 'ADD', 'SOME'):
